@@ -69,6 +69,7 @@ type snap struct {
 	tags    map[string]*tagInfo
 	files   map[string]map[string]entry // commit id -> path -> entry
 	blobs   map[string][]byte
+	badObj  map[string]string      // id of an object used by a file entry that is not a blob -> its type
 	logic   map[string]logicalBlob // blob id -> content once a pointer is resolved (evaluated when the snapshot is taken)
 	remotes []string               // names of configured remotes
 }
@@ -224,7 +225,7 @@ func (s *snap) walkTree(b *batch, treeID, prefix string, out map[string]entry, s
 // takeSnap reads every ref, every commit reachable from a ref, their flattened trees and all blobs.
 func takeSnap(w *gitx.World, repo string) *snap {
 	s := &snap{repo: repo, refs: map[string]refInfo{}, commits: map[string]*commitInfo{}, tags: map[string]*tagInfo{},
-		files: map[string]map[string]entry{}, blobs: map[string][]byte{}, logic: map[string]logicalBlob{}}
+		files: map[string]map[string]entry{}, blobs: map[string][]byte{}, logic: map[string]logicalBlob{}, badObj: map[string]string{}}
 	s.gitdir = strings.TrimSpace(git(w, repo, "rev-parse", "--absolute-git-dir"))
 	r := w.Git(repo, "symbolic-ref", "-q", "HEAD")
 	checkTimeout(r)
@@ -285,7 +286,9 @@ func takeSnap(w *gitx.World, repo string) *snap {
 			if _, ok := s.blobs[e.id]; !ok {
 				typ, data := b.get(e.id)
 				if typ != "blob" {
-					toolFail("object %s is %s, expected blob", e.id, typ)
+					// a malformed rewritten tree (file entry naming a tree/commit): an observation, judged by the oracle
+					s.badObj[e.id] = typ
+					data = nil
 				}
 				s.blobs[e.id] = data
 			}
@@ -383,6 +386,34 @@ func (s *snap) rangeOf(w *gitx.World, rs refSel) map[string]bool {
 	return m
 }
 
+// pushedCommits = commits reachable from a remote-tracking ref (empty when there is none).
+func (s *snap) pushedCommits(w *gitx.World) map[string]bool {
+	m := map[string]bool{}
+	var tips []string
+	for _, n := range s.refNames() {
+		if strings.HasPrefix(n, "refs/remotes/") {
+			tips = append(tips, s.refs[n].id)
+		}
+	}
+	if len(tips) == 0 {
+		return m
+	}
+	seen := map[string]bool{}
+	for len(tips) > 0 {
+		id := tips[0]
+		tips = tips[1:]
+		if seen[id] {
+			continue
+		}
+		seen[id] = true
+		if c := s.commits[id]; c != nil {
+			m[id] = true
+			tips = append(tips, c.parents...)
+		}
+	}
+	return m
+}
+
 func (s *snap) bareRepo() bool { return !strings.HasSuffix(s.gitdir, "/.git") }
 
 // ---------------------------------------------------------------------------------------------
@@ -409,6 +440,9 @@ func asPointer(b []byte) (oid string, size int64, ok bool) {
 // logical returns the content of a regular file blob once a pointer is resolved through local storage.
 // why != "" when the blob is a pointer that cannot be resolved.
 func (s *snap) logical(blobID string) (data []byte, isPtr bool, why string) {
+	if typ, bad := s.badObj[blobID]; bad {
+		return nil, false, "the tree entry names a " + typ + " object, not a blob"
+	}
 	b := s.blobs[blobID]
 	oid, size, ok := asPointer(b)
 	if !ok {
